@@ -123,6 +123,11 @@ func diffSnippet(a, b []byte) (int, string) {
 	return i, fmt.Sprintf("first difference at byte %d:\n  expected …%q\n  got      …%q", i, a[st:ea], b[st:eb])
 }
 
+var c06Payloads = []string{"http://e.com/?a=1&amp;b=2", "http://e.com/a\\*b", "http://e.com/&#35;x", "http://e.com/%20&copy;", "http://e.com/a_b*c~d", "HTTP://E.COM/Ü", "http://e.com/a&b", "mailto:a\\@b.c", "Title--\"x\"...", "a@b.cd"}
+
+var c06Roles = []string{"<@P@>\n", "[x](@P@)\n", "![x](@P@)\n", "[x]\n\n[x]: @P@\n", "[x](/u \"@P@\")\n", "`@P@`\n", "``` @P@\ncode\n```\n", "# @P@\n", "@P@\n===\n",
+	"[@P@]\n\n[@P@]: /u\n", "text @P@ text\n", "<a href=\"@P@\">raw</a>\n", "[x](<@P@>)\n", "x[^1]\n\n[^1]: @P@\n", "| @P@ |\n|---|\n| @P@ |\n", "- [ ] @P@\n", "t\n: @P@\n", "*@P@* ~~@P@~~\n", "> @P@\n"}
+
 func c06Locus(spec cfg.Spec, want, got []byte) string {
 	i, _ := diffSnippet(want, got)
 	// the tag/word context just before the difference, letters only
@@ -281,6 +286,15 @@ func runC06(c *core.Ctx) {
 	for _, d := range c06StateDocs {
 		s.docs = append(s.docs, []byte(d))
 	}
+	// role matrix: the same payload string in every syntactic role (autolink, destination, title, code, info string, label,
+	// heading, plain text ...), one document per (payload, role): anything remembered by content but not by role shows
+	// when two of these meet on one instance
+	for _, p := range c06Payloads {
+		for _, role := range c06Roles {
+			s.docs = append(s.docs, []byte(strings.ReplaceAll(role, "@P@", p)))
+		}
+	}
+	c.Count("role_matrix_documents", int64(len(c06Payloads)*len(c06Roles)))
 	nfixed := len(s.docs)
 	// corpus documents chosen by the run seed (same in every worker), then worker-specific soup
 	cr := newRand(core.SeedFor(c.Seed, "C06-docs", 0))
@@ -303,11 +317,18 @@ func runC06(c *core.Ctx) {
 		m := map[int]*c06Ref{}
 		s.refs[spec.Name()] = m
 		for di := 0; di < nphase; di++ {
+			// the reference comes from an instance that has never converted anything else; the long-lived instance
+			// converts the same document right away and must already agree
 			c.Begin(spec.Name(), s.docs[di])
+			ref := convert(spec.Build(), s.docs[di])
 			res := convert(md, s.docs[di])
 			c.End()
-			c.Eval()
-			m[di] = &c06Ref{out: res.Out, ok: res.OK()}
+			c.Evals(2)
+			m[di] = &c06Ref{out: ref.Out, ok: ref.OK()}
+			if ref.OK() && res.OK() && !bytes.Equal(ref.Out, res.Out) {
+				s.fail("history-dependent-output", spec, []c06Op{{Op: "convert", Doc: di}}, di, ref.Out, res.Out,
+					fmt.Sprintf("the long-lived instance had converted documents 0..%d of the fixed set before; a fresh instance produces something else", di-1))
+			}
 		}
 		c.Count("phase1_reference_outputs", int64(nphase))
 	}
